@@ -46,7 +46,7 @@ reg(C01(
         "the collector's own `meta/...` leaves are projected away from every view; a target stream does not use the origin `meta`",
         "the client's Subscribe (match-trie registration + snapshot walk) is one step relative to stream arrivals (their overlap is C04)",
         "a subscription names one target (not `*`), STREAM or ONCE; POLL and updates_only are not modelled",
-        "relay_faithful is proved for uninterrupted sessions (stream failures / reconnects are modelled, exercised end to end and checked by K_P, but the statement over sessions is not proved) and assumes of the subscribed target's stream (timestamps arbitrary; updates rejected as stale may be mixed with accepted ones and with deletes): a replay that is prefix-free at every instant (checked in the order the cache applies a notification: updates, then deletes), scalar-decodable values on which value.Equal implies equal decoding (excludes a leaf alternating between +0 and -0, open finding), no `*` element in update paths, subscription path glob-free and not below a leaf, no origin carried in a path (open finding 7.21); of the configuration: distinct target names none of which is `*`; of every stream: origin not `meta`",
+        "relay_faithful covers histories of several sessions per target (a stream failure = Reset of the target + a new session, anywhere in any stream; relay_sessions: the last session's state; relay_no_stale_leaf: at every point of every run the replay of what was delivered so far); the moment of the manager's Reset relative to the stream error is not modelled (C04); it assumes of the subscribed target's stream (timestamps arbitrary; updates rejected as stale may be mixed with accepted ones and with deletes): a replay that is prefix-free at every instant (checked in the order the cache applies a notification: updates, then deletes), scalar-decodable values on which value.Equal implies equal decoding (excludes a leaf alternating between +0 and -0, open finding), no `*` element in update paths, subscription path glob-free and not below a leaf, no origin carried in a path (open finding 7.21); of the configuration: distinct target names none of which is `*`; of every stream: origin not `meta`",
         "prototext parsing, JSON decoding, gRPC, TLS, process start-up and ports are exercised, not modelled; decimal64 -> float32 is modelled exactly for |digits| < 2^24, precision <= 10",
     ],
     modelled=[
